@@ -1040,8 +1040,8 @@ func (bits permission) String() string {
 	return string(perms)
 }
 
-func getFiletype(filetype string) (filetype, error) {
-	switch strings.ToLower(filetype) {
+func getFiletype(name string) (filetype, error) {
+	switch strings.ToLower(name) {
 	case "file":
 		return fileFiletype, nil
 	case "dir":
@@ -1057,7 +1057,15 @@ func getFiletype(filetype string) (filetype, error) {
 	case "fifo":
 		return fifoFiletype, nil
 	default:
-		return 0, fmt.Errorf("invalid filetype '%v'", filetype)
+		// ToCommandLine prints the numeric value unless asked to resolve it.
+		if v, err := strconv.ParseUint(name, 10, 32); err == nil {
+			switch ft := filetype(v); ft {
+			case fileFiletype, dirFiletype, socketFiletype, linkFiletype,
+				characterFiletype, blockFiletype, fifoFiletype:
+				return ft, nil
+			}
+		}
+		return 0, fmt.Errorf("invalid filetype '%v'", name)
 	}
 }
 
